@@ -20,8 +20,9 @@ CLANG = 'clang++-14'
 BASE_FLAGS = ['-std=c++17', '-fno-exceptions', '-fno-rtti', '-gline-tables-only', '-Wno-everything',
               '-I' + INCLUDE, '-I' + Q2C, '-I' + os.path.join(Q2C, 'standins'), '-I' + os.path.join(ROOT, 'harness')]
 MODE_FLAGS = {
-    'F': ['-O1', '-fno-vectorize', '-fno-slp-vectorize', '-fno-unroll-loops'],
-    'Fi': ['-O1', '-fno-vectorize', '-fno-slp-vectorize', '-fno-unroll-loops', '-mllvm', '-inline-threshold=100000'],
+    # -disable-loop-idiom-all: keep source loops as loops (no llvm.memset/memcpy with a symbolic length)
+    'F': ['-O1', '-fno-vectorize', '-fno-slp-vectorize', '-fno-unroll-loops', '-mllvm', '-disable-loop-idiom-all'],
+    'Fi': ['-O1', '-fno-vectorize', '-fno-slp-vectorize', '-fno-unroll-loops', '-mllvm', '-disable-loop-idiom-all', '-mllvm', '-inline-threshold=100000'],
 }
 CBMC_BASE = ['--unwinding-assertions', '--undefined-shift-check',
              '--drop-unused-functions', '--no-malloc-may-fail', '--no-standard-checks',
